@@ -35,7 +35,7 @@ Record dstep := mkd {
 
 (* state: (running amplification, per-block running scales, per-block running relative
    preconditioner differences A vs A+, counters of non-bitwise acceptances) *)
-Definition dacc := (Q * list Q * list Q * (Z * Z * Z))%type.
+Definition dacc := (Q * list Q * list Q * list (option Q) * (Z * Z * Z))%type.
 
 (* Two float32 roots of the same statistic may differ by rounding amplified by the condition number
    of the damped matrix (C01's slack is of the same form): relative slack 16 n u kappa, where
@@ -57,7 +57,7 @@ Definition reldiff (A B : mat) : Q :=
 (* code of one step (0 = fine) and the updated running context *)
 Definition ds_step_code (b : Z) (shape : list nat) (tau meps : Q) (rel graft_none strict : bool)
            (st : dacc) (r : dstep) : Z * dacc :=
-  let '(amp0, scales0, rels0, (c1, c2, c3)) := st in
+  let '(amp0, scales0, rels0, slk0, (c1, c2, c3)) := st in
   let blocks := ds_blocks b shape (d_g r) in
   let np := length shape in
   let nblk := length blocks in
@@ -67,7 +67,13 @@ Definition ds_step_code (b : Z) (shape : list nat) (tau meps : Q) (rel graft_non
                 && Nat.eqb (length (d_uB r)) nblk) then (8%Z, st)
   else
     let ks := seq 0 nblk in
-    let slacks := map (fun '(A, lam) => root_slack meps rel A lam) (combine (d_statsA r) (d_lam r)) in
+    let slacks_now := map (fun '(A, lam) => root_slack meps rel A lam) (combine (d_statsA r) (d_lam r)) in
+    (* the stored roots may stem from an earlier refresh: running maximum of the slack *)
+    let slacks := map (fun '(i, sl) =>
+                         match nth i slk0 (Some 0), sl with
+                         | Some a, Some b0 => Some (Qmax a b0)
+                         | _, _ => None
+                         end) (combine (seq 0 (length slacks_now)) slacks_now) in
     let stat_ok (x y : mat) := if meq x y then true else if strict then false else mrel tau y x in
     if negb (forallb (fun k => all2 stat_ok (blockview np k (d_statsA r)) (nth k (d_statsB r) [])) ks)
     then (2%Z, st)
@@ -112,10 +118,13 @@ Definition ds_step_code (b : Z) (shape : list nat) (tau meps : Q) (rel graft_non
         else
           let rels := map (fun k => Qmax (relB k)
                                       (fold_left Qplus (map (fun x => snd (fst x)) (blockview np k rPre)) 0)) ks in
-          let tolP := fun k => (tau * (4 + amp) + 4 * amp * nth k rels 0) * nth k scales 0 in
+          (* with a grafting type the multiplier |graft| / |P g| couples the blocks of the parameter *)
+          let relall := fold_left Qplus rels 0 in
+          let tolP := fun k => (tau * (4 + amp) + 4 * amp * (if graft_none then nth k rels 0 else relall))
+                               * nth k scales 0 in
           let rAP := map (fun '(k, (ua, up)) => close_or_eq (tolP k) up ua) (combine ks (combine uAs uPs)) in
           if negb (forallb fst rAP) then (7%Z, st)
-          else (0%Z, (amp, scales, rels,
+          else (0%Z, (amp, scales, rels, slacks,
                       ((c1 + (if graft_none then nb (forallb snd rAB) else 0))%Z,
                        (c2 + nb (forallb (fun x => snd (fst (fst x))) rPre))%Z,
                        (c3 + nb (forallb snd rAP) + 1000000 * nb (forallb snd rPre))%Z))).
@@ -134,7 +143,7 @@ Fixpoint ds_steps (b : Z) (shape : list nat) (tau meps : Q) (rel gn strict : boo
    A vs A+ updates) were accepted within tolerance but not bitwise *)
 Definition chk_ds (b : Z) (shape : list nat) (tau meps : Q) (rel graft_none strict : bool)
            (rs : list dstep) : Z * (Z * Z * Z) :=
-  ds_steps b shape tau meps rel graft_none strict 0 (1, [], [], (0, 0, 0)%Z) rs.
+  ds_steps b shape tau meps rel graft_none strict 0 (1, [], [], [], (0, 0, 0)%Z) rs.
 
 (* ---------- Tearfree Shampoo ---------- *)
 Record tstep := mkt {
@@ -145,7 +154,7 @@ Record tstep := mkt {
   t_statsB : list (list (list mat)); t_preB : list (list (list mat)) }.   (* leaf: [axis][1] *)
 
 Definition tf_step_code (b : Z) (shape : list nat) (tau : Q) (st : dacc) (r : tstep) : Z * dacc :=
-  let '(amp0, scales0, rels0, (c1, c2, c3)) := st in
+  let '(amp0, scales0, rels0, slk0, (c1, c2, c3)) := st in
   let bm := blocks_metadata b (map Z.of_nat shape) in
   let t := mkT shape (t_g r) in
   let blocks := blocks_of bm t in
@@ -183,7 +192,7 @@ Definition tf_step_code (b : Z) (shape : list nat) (tau : Q) (st : dacc) (r : ts
       else
         let rAP := map (fun '(k, (ua, up)) => close_or_eq (tolk k) up ua) (combine ks (combine uAs uPs)) in
         if negb (forallb fst rAP) then (7%Z, st)
-        else (0%Z, (amp, scales, rels0,
+        else (0%Z, (amp, scales, rels0, slk0,
                     ((c1 + nb (forallb snd rAB))%Z, c2, (c3 + nb (forallb snd rAP))%Z))).
 
 Fixpoint tf_steps (b : Z) (shape : list nat) (tau : Q) (i : Z) (st : dacc) (rs : list tstep)
@@ -197,4 +206,4 @@ Fixpoint tf_steps (b : Z) (shape : list nat) (tau : Q) (i : Z) (st : dacc) (rs :
   end.
 
 Definition chk_tf (b : Z) (shape : list nat) (tau : Q) (rs : list tstep) : Z * (Z * Z * Z) :=
-  tf_steps b shape tau 0 (1, [], [], (0, 0, 0)%Z) rs.
+  tf_steps b shape tau 0 (1, [], [], [], (0, 0, 0)%Z) rs.
